@@ -468,6 +468,7 @@ type Facts struct {
 	PackageVarWriters map[string][]string `json:"packageVarWriters"`
 	PackageVarUsers   map[string][]string `json:"packageVarUsers"`
 	SubPackageVars    map[string][]string `json:"subPackageVars"`
+	Decisions         map[string][]string    `json:"decisions"` // straight-line decision lists (sort comparator, window arithmetic)
 	OpTables          map[string][][2]string `json:"opTables"` // per function: (operator case, what the case computes) // package-level variables of the sub-packages (compare, sanitizer, …)
 	VarsAccess        map[string][][]Event `json:"varsAccessPaths"`
 	AsyncEvents       map[string][]string `json:"asyncEvents"`
@@ -710,6 +711,41 @@ func (ex *extractor) packageVars(f *Facts) {
 			f.PackageVarWriters[v] = append(f.PackageVarWriters[v], w)
 		}
 		sort.Strings(f.PackageVarWriters[v])
+	}
+}
+
+// statement-level source text (go/printer), whitespace-normalised
+func stmtText(n ast.Node) string {
+	var sb strings.Builder
+	if err := printer.Fprint(&sb, token.NewFileSet(), n); err != nil {
+		return "?"
+	}
+	return strings.Join(strings.Fields(sb.String()), " ")
+}
+
+// decision lists: the top-level statements of the `sort.go` comparator, and the statements of `exec()` that compute
+// the LIMIT / OFFSET window, as normalised source text in order
+func (ex *extractor) decisions(f *Facts) {
+	f.Decisions = map[string][]string{}
+	if fd := ex.funcs["Compare"]; fd != nil && fd.Body != nil {
+		for _, st := range fd.Body.List {
+			f.Decisions["sortCompare"] = append(f.Decisions["sortCompare"], stmtText(st))
+		}
+	}
+	if fd := ex.funcs["Query.exec"]; fd != nil && fd.Body != nil {
+		for _, st := range fd.Body.List {
+			txt := stmtText(st)
+			mentions := false
+			ast.Inspect(st, func(n ast.Node) bool {
+				if id, ok := n.(*ast.Ident); ok && (id.Name == "limit" || id.Name == "offset") {
+					mentions = true
+				}
+				return true
+			})
+			if mentions {
+				f.Decisions["window"] = append(f.Decisions["window"], txt)
+			}
+		}
 	}
 }
 
@@ -1574,6 +1610,7 @@ func main() {
 	}
 	ex.varsAccess(f)
 	ex.opTables(f)
+	ex.decisions(f)
 	ex.asyncEvents(f)
 	ex.forwarders(f)
 	ex.registry(f)
@@ -1634,6 +1671,9 @@ func main() {
 			evs = append(evs, "."+e)
 		}
 		sb.WriteString("def " + k + "Events : List Ev := [" + strings.Join(evs, ", ") + "]\n")
+	}
+	for _, k := range []string{"sortCompare", "window"} {
+		sb.WriteString("def decisions" + strings.ToUpper(k[:1]) + k[1:] + " : List String :=\n  " + leanStrList(f.Decisions[k]) + "\n\n")
 	}
 	for _, fn := range []string{"ComparisonExpr", "BinaryExpr", "UnaryExpr"} {
 		var items []string
